@@ -1118,4 +1118,296 @@ theorem refMerge_perm (doc : TsDoc) :
   simp only [List.flatMap_cons, classS_eq, List.flatMap_map, classT_eq]
   exact List.Perm.refl _
 
+/-! ### Part 5: `resolve` characterised -/
+
+/-- what the per-kind part of the output is compared with -/
+def kindRef (doc : TsDoc) (k : TypeKind) : List TsItem := (typeDefs k doc).map fun t => .typeDef (refType doc t)
+
+def schemaRef (doc : TsDoc) : List TsItem := (schemaDefs doc).map fun s => .schemaDef (refSchema doc s)
+
+theorem mem_kindOrder (k : TypeKind) : k ∈ kindOrder := by cases k <;> simp [kindOrder]
+
+theorem noDup_of_scan (doc : TsDoc) (st : St) (h : scan {} doc = .ok st) : NoDupOriginal doc := by
+  have hc := scan_empty_ok doc st h
+  refine ⟨?_, fun k => ?_⟩
+  · have := hc.1.1
+    rwa [origKeys_opsS, nodup_replicate_none] at this
+  · have := (hc.2.1 k).1
+    rwa [origKeys_opsT, nodup_map_some] at this
+
+theorem typeItems_ok (doc : TsDoc) (st : St) (k : TypeKind) (hst : st.types k = group kT kT (opsT k doc))
+    (hnd : ((typeDefs k doc).map (·.name)).Nodup) (items : List TsItem) (h : typeItems st k = .ok items) :
+    (∀ e ∈ typeExtsOfKind k doc, e.name ∈ (typeDefs k doc).map (·.name)) ∧ items.Perm (kindRef doc k) := by
+  rw [typeItems_char doc st k hst] at h
+  cases hf : (typeExtsOfKind k doc).find? (fun e => decide (e.name ∉ (typeDefs k doc).map (·.name))) with
+  | some e => rw [hf] at h; simp at h
+  | none =>
+    rw [hf] at h
+    simp only [Except.ok.injEq] at h
+    subst h
+    refine ⟨?_, typeItems_perm doc k hnd⟩
+    intro e he
+    have := List.find?_eq_none.mp hf e he
+    simpa using this
+
+theorem typeItems_ok_of (doc : TsDoc) (st : St) (k : TypeKind) (hst : st.types k = group kT kT (opsT k doc))
+    (hnd : ((typeDefs k doc).map (·.name)).Nodup)
+    (hno : ∀ e ∈ typeExtsOfKind k doc, e.name ∈ (typeDefs k doc).map (·.name)) :
+    ∃ items, typeItems st k = .ok items ∧ items.Perm (kindRef doc k) := by
+  rw [typeItems_char doc st k hst]
+  have hf : (typeExtsOfKind k doc).find? (fun e => decide (e.name ∉ (typeDefs k doc).map (·.name))) = none := by
+    rw [List.find?_eq_none]
+    intro e he
+    simpa using hno e he
+  rw [hf]
+  exact ⟨_, rfl, typeItems_perm doc k hnd⟩
+
+theorem typeItems_err (doc : TsDoc) (st : St) (k : TypeKind) (hst : st.types k = group kT kT (opsT k doc))
+    (e : ExtError) (h : typeItems st k = .error e) :
+    ∃ x, (typeExtsOfKind k doc).find? (fun e => decide (e.name ∉ (typeDefs k doc).map (·.name))) = some x ∧
+      e = .noOriginal (elemName k) x.pos := by
+  rw [typeItems_char doc st k hst] at h
+  cases hf : (typeExtsOfKind k doc).find? (fun e => decide (e.name ∉ (typeDefs k doc).map (·.name))) with
+  | none => rw [hf] at h; simp at h
+  | some x =>
+    rw [hf] at h
+    simp only [Except.error.injEq] at h
+    exact ⟨x, rfl, h.symm⟩
+
+theorem find?_const {α : Type} (b : Bool) (l : List α) : l.find? (fun _ => b) = if b then l.head? else none := by
+  cases l with
+  | nil => cases b <;> rfl
+  | cons a l => cases b <;> simp [List.find?_cons]
+
+theorem schemaItems_ok (doc : TsDoc) (st : St) (hst : st.schema = group kS kS (opsS doc))
+    (hnd : (schemaDefs doc).length ≤ 1) (items : List TsItem) (h : schemaItems st = .ok items) :
+    (schemaExts doc ≠ [] → schemaDefs doc ≠ []) ∧ items.Perm (schemaRef doc) := by
+  rw [schemaItems_char doc st hst, find?_const] at h
+  by_cases hd : schemaDefs doc = []
+  · simp only [hd, decide_true, if_true] at h
+    cases hx : (schemaExts doc).head? with
+    | some x => rw [hx] at h; simp at h
+    | none =>
+      have : schemaExts doc = [] := List.head?_eq_none_iff.mp hx
+      rw [hx] at h
+      simp only [Except.ok.injEq] at h
+      subst h
+      exact ⟨fun hne => absurd this hne, schemaItems_perm doc hnd⟩
+  · simp only [hd, decide_false] at h
+    simp only [Bool.false_eq_true, if_false, Except.ok.injEq] at h
+    subst h
+    exact ⟨fun _ => hd, schemaItems_perm doc hnd⟩
+
+theorem schemaItems_ok_of (doc : TsDoc) (st : St) (hst : st.schema = group kS kS (opsS doc))
+    (hnd : (schemaDefs doc).length ≤ 1) (hno : schemaExts doc ≠ [] → schemaDefs doc ≠ []) :
+    ∃ items, schemaItems st = .ok items ∧ items.Perm (schemaRef doc) := by
+  rw [schemaItems_char doc st hst, find?_const]
+  by_cases hd : schemaDefs doc = []
+  · have : schemaExts doc = [] := Classical.byContradiction fun hne => hno hne hd
+    simp only [hd, decide_true, if_true, this, List.head?_nil]
+    exact ⟨_, rfl, schemaItems_perm doc hnd⟩
+  · simp only [hd, decide_false, Bool.false_eq_true, if_false]
+    exact ⟨_, rfl, schemaItems_perm doc hnd⟩
+
+theorem schemaItems_err (doc : TsDoc) (st : St) (hst : st.schema = group kS kS (opsS doc))
+    (e : ExtError) (h : schemaItems st = .error e) :
+    ∃ x, schemaDefs doc = [] ∧ (schemaExts doc).head? = some x ∧ e = .noOriginal "schema" x.pos := by
+  rw [schemaItems_char doc st hst, find?_const] at h
+  by_cases hd : schemaDefs doc = []
+  · simp only [hd, decide_true, if_true] at h
+    cases hx : (schemaExts doc).head? with
+    | none => rw [hx] at h; simp at h
+    | some x =>
+      rw [hx] at h
+      simp only [Except.error.injEq] at h
+      exact ⟨x, hd, rfl, h.symm⟩
+  · simp [hd] at h
+
+/-- success of `resolve`: the two failure conditions are absent and the output is the directive definitions,
+    then (up to order) the merged schema definitions, then (up to order within each kind) the merged definitions -/
+theorem resolve_ok (doc out : TsDoc) (h : resolve doc = .ok out) :
+    NoDupOriginal doc ∧ NoOrphan doc ∧
+    ∃ ss ts, out = (dirsOf doc).map TsItem.directiveDef ++ ss ++ ts ∧ ss.Perm (schemaRef doc) ∧
+      ts.Perm (kindOrder.flatMap (kindRef doc)) := by
+  unfold resolve at h
+  cases hs : scan {} doc with
+  | error e => rw [hs] at h; simp at h
+  | ok st =>
+    rw [hs] at h
+    dsimp only at h
+    have hnd := noDup_of_scan doc st hs
+    have hc := scan_empty_ok doc st hs
+    cases hss : schemaItems st with
+    | error e => rw [hss] at h; simp at h
+    | ok ss =>
+      rw [hss] at h
+      dsimp only at h
+      cases hts : typeItemsAll st kindOrder with
+      | error e => rw [hts] at h; simp at h
+      | ok ts =>
+        rw [hts] at h
+        simp only [Except.ok.injEq] at h
+        have hS := schemaItems_ok doc st hc.1.2 hnd.1 ss hss
+        have hT : ∀ k, ∃ items, typeItems st k = .ok items := fun k =>
+          typeItemsAll_ok_inv st kindOrder ts hts k (mem_kindOrder k)
+        have hT' : ∀ k, (∀ e ∈ typeExtsOfKind k doc, e.name ∈ (typeDefs k doc).map (·.name)) ∧
+            ∃ items, typeItems st k = .ok items ∧ items.Perm (kindRef doc k) := by
+          intro k
+          obtain ⟨items, hi⟩ := hT k
+          have := typeItems_ok doc st k (hc.2.1 k).2 (hnd.2 k) items hi
+          exact ⟨this.1, items, hi, this.2⟩
+        obtain ⟨all, ha, hp⟩ := typeItemsAll_ok st (kindRef doc) kindOrder (fun k _ => (hT' k).2)
+        rw [hts] at ha
+        simp only [Except.ok.injEq] at ha
+        subst ha
+        refine ⟨hnd, ⟨hS.1, fun k => (hT' k).1⟩, ss, ts, ?_, hS.2, hp⟩
+        rw [← h, hc.2.2]
+
+/-- the first pass fails exactly at the first definition whose registry entry already has an original -/
+theorem scan_err (doc : TsDoc) (e : ExtError) (h : scan {} doc = .error e) :
+    ∃ pre it post, doc = pre ++ it :: post ∧ NoDupOriginal pre ∧
+      ((∃ s f, it = .schemaDef s ∧ schemaDefs pre = [f] ∧ e = .duplicateOriginal "schema" "" f.pos s.pos) ∨
+       (∃ t f, it = .typeDef t ∧ (typeDefs t.kind pre).find? (fun x => decide (x.name = t.name)) = some f ∧
+          e = .duplicateOriginal (elemName t.kind) t.name f.pos t.pos)) := by
+  obtain ⟨pre, it, post, st1, hd, hp, he⟩ := scan_error doc {} e h
+  have hnd := noDup_of_scan pre st1 hp
+  have hc := scan_empty_ok pre st1 hp
+  refine ⟨pre, it, post, hd, hnd, ?_⟩
+  cases it with
+  | schemaDef s =>
+    left
+    simp only [step] at he
+    have hg := setOriginal_group kS kS (opsS pre) s
+    rw [← hc.1.2] at hg
+    have hk : kS s = none := rfl
+    rw [hk] at hg
+    rw [hg, origsOf_eq_filter, origsAll_opsS] at he
+    have hfil : (schemaDefs pre).filter (fun o => decide (kS o = none)) = schemaDefs pre := by
+      rw [List.filter_eq_self]; intro a _; simp [kS]
+    rw [hfil] at he
+    cases hsd : schemaDefs pre with
+    | nil => rw [hsd] at he; simp at he
+    | cons f r =>
+      rw [hsd] at he
+      simp only [List.head?_cons, Except.error.injEq] at he
+      have hlen := hnd.1
+      rw [hsd] at hlen
+      have hr : r = [] := by
+        cases r with
+        | nil => rfl
+        | cons _ _ => simp at hlen
+      subst hr
+      exact ⟨s, f, rfl, rfl, he.symm⟩
+  | typeDef t =>
+    right
+    simp only [step] at he
+    have hg := setOriginal_group kT kT (opsT t.kind pre) t
+    rw [← (hc.2.1 t.kind).2] at hg
+    have hk : kT t = some t.name := rfl
+    rw [hk] at hg
+    rw [hg, origsOf_eq_filter, origsAll_opsT, List.head?_filter] at he
+    have hfind : (typeDefs t.kind pre).find? (fun o => decide (kT o = some t.name)) =
+        (typeDefs t.kind pre).find? (fun x => decide (x.name = t.name)) := by
+      congr 1; funext x; simp [kT]
+    rw [hfind] at he
+    cases hf : (typeDefs t.kind pre).find? (fun x => decide (x.name = t.name)) with
+    | none => rw [hf] at he; simp at he
+    | some f =>
+      rw [hf] at he
+      simp only [Except.error.injEq] at he
+      exact ⟨t, f, rfl, hf, he.symm⟩
+  | directiveDef d => simp [step] at he
+  | schemaExt s => simp [step] at he
+  | typeExt t => simp [step] at he
+
+theorem noDup_of_append_left {pre post : TsDoc} (h : NoDupOriginal (pre ++ post)) : NoDupOriginal pre := by
+  refine ⟨?_, fun k => ?_⟩
+  · have := h.1
+    simp only [schemaDefs, List.filterMap_append, List.length_append] at this ⊢
+    omega
+  · have := h.2 k
+    simp only [typeDefs, List.filterMap_append, List.map_append, List.nodup_append] at this ⊢
+    exact this.1
+
+/-- the first pass succeeds when no original is duplicated -/
+theorem scan_ok_of (doc : TsDoc) (hnd : NoDupOriginal doc) : ∃ st, scan {} doc = .ok st := by
+  cases hs : scan {} doc with
+  | ok st => exact ⟨st, rfl⟩
+  | error e =>
+    exfalso
+    obtain ⟨pre, it, post, hd, _, hcase⟩ := scan_err doc e hs
+    subst hd
+    rcases hcase with ⟨s, f, rfl, hf, _⟩ | ⟨t, f, rfl, hf, _⟩
+    · have := hnd.1
+      simp [schemaDefs, List.filterMap_append] at this hf
+      rw [hf] at this
+      simp at this
+      omega
+    · have := hnd.2 t.kind
+      have hmem := List.mem_of_find?_eq_some hf
+      have hname : f.name = t.name := by simpa using List.find?_some hf
+      simp only [typeDefs, List.filterMap_append, List.filterMap_cons, if_true, List.map_append, List.map_cons,
+        List.nodup_append] at this
+      exact this.2.2 f.name (List.mem_map.mpr ⟨f, hmem, rfl⟩) t.name (by simp) hname
+
+theorem resolve_ok_of (doc : TsDoc) (hnd : NoDupOriginal doc) (hno : NoOrphan doc) : ∃ out, resolve doc = .ok out := by
+  obtain ⟨st, hs⟩ := scan_ok_of doc hnd
+  have hc := scan_empty_ok doc st hs
+  obtain ⟨ss, hss, _⟩ := schemaItems_ok_of doc st hc.1.2 hnd.1 hno.1
+  obtain ⟨ts, hts, _⟩ := typeItemsAll_ok st (kindRef doc) kindOrder
+    (fun k _ => typeItems_ok_of doc st k (hc.2.1 k).2 (hnd.2 k) (hno.2 k))
+  exact ⟨st.directives.map .directiveDef ++ ss ++ ts, by simp [resolve, hs, hss, hts]⟩
+
+/-- failure of `resolve`, both ways it can happen -/
+theorem resolve_err (doc : TsDoc) (e : ExtError) (h : resolve doc = .error e) :
+    (∃ pre it post, doc = pre ++ it :: post ∧ NoDupOriginal pre ∧
+      ((∃ s f, it = .schemaDef s ∧ schemaDefs pre = [f] ∧ e = .duplicateOriginal "schema" "" f.pos s.pos) ∨
+       (∃ t f, it = .typeDef t ∧ (typeDefs t.kind pre).find? (fun x => decide (x.name = t.name)) = some f ∧
+          e = .duplicateOriginal (elemName t.kind) t.name f.pos t.pos))) ∨
+    (NoDupOriginal doc ∧
+      ((∃ x, schemaDefs doc = [] ∧ (schemaExts doc).head? = some x ∧ e = .noOriginal "schema" x.pos) ∨
+       ((schemaExts doc ≠ [] → schemaDefs doc ≠ []) ∧
+        ∃ a k b x, kindOrder = a ++ k :: b ∧
+          (∀ k' ∈ a, ∀ y ∈ typeExtsOfKind k' doc, y.name ∈ (typeDefs k' doc).map (·.name)) ∧
+          (typeExtsOfKind k doc).find? (fun y => decide (y.name ∉ (typeDefs k doc).map (·.name))) = some x ∧
+          e = .noOriginal (elemName k) x.pos))) := by
+  unfold resolve at h
+  cases hs : scan {} doc with
+  | error e' =>
+    rw [hs] at h
+    simp only [Except.error.injEq] at h
+    subst h
+    exact Or.inl (scan_err doc _ hs)
+  | ok st =>
+    right
+    rw [hs] at h
+    dsimp only at h
+    have hnd := noDup_of_scan doc st hs
+    have hc := scan_empty_ok doc st hs
+    refine ⟨hnd, ?_⟩
+    cases hss : schemaItems st with
+    | error e' =>
+      rw [hss] at h
+      simp only [Except.error.injEq] at h
+      subst h
+      exact Or.inl (schemaItems_err doc st hc.1.2 _ hss)
+    | ok ss =>
+      right
+      rw [hss] at h
+      dsimp only at h
+      have hS := schemaItems_ok doc st hc.1.2 hnd.1 ss hss
+      refine ⟨hS.1, ?_⟩
+      cases hts : typeItemsAll st kindOrder with
+      | ok ts => rw [hts] at h; simp at h
+      | error e' =>
+        rw [hts] at h
+        simp only [Except.error.injEq] at h
+        subst h
+        obtain ⟨a, k, b, hko, hok, herr⟩ := typeItemsAll_err st _ kindOrder hts
+        obtain ⟨x, hx, he⟩ := typeItems_err doc st k (hc.2.1 k).2 _ herr
+        refine ⟨a, k, b, x, hko, ?_, hx, he⟩
+        intro k' hk'
+        obtain ⟨items, hi⟩ := hok k' hk'
+        exact (typeItems_ok doc st k' (hc.2.1 k').2 (hnd.2 k') items hi).1
+
 end NitroVerif.ExtResolve
